@@ -244,6 +244,22 @@ func vf12GenCase13(t *rapid.T, o *vfOffer) *vf12Case {
 		s.CompressFn = func(m []byte) ([]byte, uint32) { return vfCompressCert(v, m), uint32(len(m)) }
 		c.Desc = fmt.Sprintf("CompressedCertificate with algorithm %d; advertised %v", v, h.CertCompAlgs())
 	}
+	switch kind {
+	case "suite13-unoffered", "suite12-in-13", "suite-grease", "compression", "sessionid", "psk-index", "alpn-unoffered", "certcomp-unadvertised":
+		// optionally the bad choice only shows in the ServerHello that follows a compliant HelloRetryRequest
+		var cands []uint16
+		for _, g := range h.Groups() {
+			if !shareGroups[g] && (g == 0x001d || g == 0x0017 || g == 0x0018 || g == 0x0019) {
+				cands = append(cands, g)
+			}
+		}
+		if len(cands) > 0 && h.Ext(51) != nil && rapid.IntRange(0, 2).Draw(t, "after_valid_hrr") == 0 {
+			s.HRR, s.HRRClean = true, true
+			s.HRRGroup = cands[rapid.IntRange(0, len(cands)-1).Draw(t, "valid_hrr_group")]
+			c.Kind += "+after-valid-hrr"
+			c.Desc += fmt.Sprintf(" (after a compliant HelloRetryRequest for group %#04x)", s.HRRGroup)
+		}
+	}
 	return c
 }
 
